@@ -89,13 +89,15 @@ def run_job(args):
 def run(ctx):
     ctx.level = "model_checking"
     jobs = instances(ctx.tier)
-    items = [(j, 1 if (ctx.quick or len(j["spec"]["vars"]) > 2) else 2) for j in jobs]
+    # bound 2 only for the 2-variable DPOP instances: an A-DSA / replication / timeout run has thousands of scheduling points, two
+    # deviations there are millions of executions (measured: > 100 core-minutes per instance without finishing)
+    items = [(j, 1 if (ctx.quick or len(j["spec"]["vars"]) > 2 or j["algo"] != "dpop") else 2) for j in jobs]
     for j in jobs:
         for pol in (c22.POLICIES_QUICK if ctx.quick else c22.POLICIES_THOROUGH):
             items.append((dict(j, policy=pol), 0 if (ctx.quick or len(j["spec"]["vars"]) > 2) else 1))  # thorough: single deviations on the 2-variable instances
     ctx.rule = (
         "stateless deviation-bounded exploration (fair default schedule + every schedule with <= 1 deviation; thorough: <= 2 on the "
-        "2-variable instances; plus the default execution - thorough: and every single deviation on the 2-variable instances - of other default schedules: most-recently-run thread first, by thread name, a slow orchestrator / agent thread) of the REAL orchestrated run in thread mode (DPOP family of C22 with explicit mappings, plus A-DSA with "
+        "2-variable DPOP instances; plus the default execution - thorough: and every single deviation on the 2-variable instances - of other default schedules: most-recently-run thread first, by thread name, a slow orchestrator / agent thread) of the REAL orchestrated run in thread mode (DPOP family of C22 with explicit mappings, plus A-DSA with "
         "periodic actions); in every execution a monitor checks for every start / on_message / pause of every computation, every periodic "
         "action and every discovery callback that the executing controlled thread is the hosting agent's thread and that no other callback "
         "of that agent is active. states = schedule-tree nodes, transitions = scheduling points, traces = executions; the evidence lists the "
